@@ -236,7 +236,6 @@ edit("B27-h2-len-eq-zero", "actix-http/src/h2/dispatcher.rs", repl("chunk.is_emp
 edit("B28-encoder-len-eq-zero", "actix-http/src/h1/encoder.rs", repl("msg.is_empty()", "msg.len() == 0"))
 edit("B29-dispatcher-matches-none", "actix-http/src/h1/dispatcher.rs", repl("&& inner_p.payload.is_none()", "&& matches!(inner_p.payload, None)", 1))
 edit("B30-dispatcher-len-eq-zero", "actix-http/src/h1/dispatcher.rs", repl("if state_is_none && inner_p.write_buf.is_empty() {", "if state_is_none && inner_p.write_buf.len() == 0 {", 1))
-edit("B31-multipart-eof-len", "actix-multipart/src/field.rs", repl("payload.buf.is_empty()", "payload.buf.len() == 0"))
 
 def main():
     out = os.path.join(V, "benign")
